@@ -705,3 +705,141 @@ func (c *Ctx) shrinkingSliceLoop(fn *ssa.Function, l *natLoop) (class string, ok
 	}
 	return "", false, "", false
 }
+
+// ruleLockPairing (R.lock): every path from a Lock to an exit of the function
+// releases the lock (directly or by a deferred Unlock). A return taken with
+// the mutex held blocks every later operation on the object for ever.
+func (c *Ctx) ruleLockPairing(rule string, in func(*ssa.Function) bool) int {
+	n := 0
+	counts := map[string]int{}
+	lockOf := func(call ssa.CallInstruction) (kind, obj string) {
+		id := ir.CallID(call)
+		switch id {
+		case "sync.Mutex.Lock", "sync.RWMutex.Lock", "sync.RWMutex.RLock":
+			kind = "lock"
+		case "sync.Mutex.Unlock", "sync.RWMutex.Unlock", "sync.RWMutex.RUnlock":
+			kind = "unlock"
+		default:
+			return "", ""
+		}
+		args := ir.CallArgs(call)
+		if len(args) == 0 {
+			return "", ""
+		}
+		return kind, lockKey(ir.StripConv(args[0]), 0)
+	}
+	for _, fn := range c.P.LibFunctions() {
+		if in != nil && !in(fn) || fn.Blocks == nil {
+			continue
+		}
+		deferred := map[string]bool{}
+		instrsOf(fn, func(i ssa.Instruction) {
+			if d, ok := i.(*ssa.Defer); ok {
+				if k, o := lockOf(d); k == "unlock" {
+					deferred[o] = true
+				}
+				// defer func() { mu.Unlock() }()
+				if mc, ok := d.Call.Value.(*ssa.MakeClosure); ok {
+					if lit, ok := mc.Fn.(*ssa.Function); ok {
+						instrsOf(lit, func(j ssa.Instruction) {
+							if cj, ok := j.(ssa.CallInstruction); ok {
+								if k, _ := lockOf(cj); k == "unlock" {
+									deferred["*"] = true
+								}
+							}
+						})
+					}
+				}
+			}
+		})
+		for _, b := range fn.Blocks {
+			for idx, i := range b.Instrs {
+				call, ok := i.(*ssa.Call)
+				if !ok {
+					continue
+				}
+				k, obj := lockOf(call)
+				if k != "lock" {
+					continue
+				}
+				n++
+				key := ordinalKey(counts, name(fn)+":lock:"+obj)
+				construct := strings.TrimPrefix(key, name(fn)+":")
+				if deferred[obj] || deferred["*"] {
+					c.R.Okf(rule, name(fn), construct, c.IPos(call), "the lock is released by a deferred Unlock")
+					continue
+				}
+				unlocksIn := func(bb *ssa.BasicBlock, from int) bool {
+					for _, j := range bb.Instrs[from:] {
+						if cj, ok := j.(ssa.CallInstruction); ok {
+							if _, isDefer := j.(*ssa.Defer); isDefer {
+								continue
+							}
+							if kk, oo := lockOf(cj); kk == "unlock" && oo == obj {
+								return true
+							}
+						}
+					}
+					return false
+				}
+				bad := ""
+				if !unlocksIn(b, idx+1) {
+					seen := map[int]bool{b.Index: true}
+					q := []*ssa.BasicBlock{}
+					if _, isRet := b.Instrs[len(b.Instrs)-1].(*ssa.Return); isRet {
+						bad = c.IPos(b.Instrs[len(b.Instrs)-1])
+					}
+					q = append(q, b.Succs...)
+					for len(q) > 0 && bad == "" {
+						cur := q[0]
+						q = q[1:]
+						if seen[cur.Index] {
+							continue
+						}
+						seen[cur.Index] = true
+						if unlocksIn(cur, 0) {
+							continue
+						}
+						if r, isRet := cur.Instrs[len(cur.Instrs)-1].(*ssa.Return); isRet {
+							bad = c.IPos(r)
+							break
+						}
+						q = append(q, cur.Succs...)
+					}
+				}
+				c.R.Check(bad == "", rule, name(fn), construct, c.IPos(call), "every path from Lock to a return releases the lock",
+					"the return at "+bad+" is reachable from the Lock without an Unlock of "+obj+": the next operation that takes the lock blocks for ever")
+			}
+		}
+	}
+	return n
+}
+
+// lockKey names the object a mutex address denotes by its access path from a
+// parameter, global or local (two FieldAddr instructions of the same field of
+// the same object get the same key).
+func lockKey(v ssa.Value, depth int) string {
+	if depth > 8 {
+		return v.Name()
+	}
+	switch x := v.(type) {
+	case *ssa.FieldAddr:
+		f := ir.FieldOf(x)
+		nm := "?"
+		if f != nil {
+			nm = f.Name()
+		}
+		return lockKey(x.X, depth+1) + "." + nm
+	case *ssa.UnOp:
+		return lockKey(x.X, depth+1)
+	case *ssa.Parameter:
+		return x.Name()
+	case *ssa.FreeVar:
+		return x.Name()
+	case *ssa.Global:
+		return x.Name()
+	case *ssa.Alloc:
+		return x.Comment + ":" + x.Name()
+	}
+	return v.Name()
+}
